@@ -14,7 +14,7 @@ from vlib import core
 from models import pplex
 
 LEVEL = "exploration"
-BUDGET = {"quick": 240, "thorough": 1200}
+BUDGET = {"quick": 900, "thorough": 3600}     # deadlines, not expected times
 
 PUNCT = ["+", "++", "+=", "-", "--", "-=", "->", ">", ">>", ">=", ">>=", "<", "<<", "<=", "<<=", "=", "==", "!", "!=", "&", "&&", "&=",
          "|", "||", "|=", ".", "...", "/", "/=", "*", "*=", "%", "%=", "^", "^=", "#", "##", ":", "?", ";", ",", "(", ")", "[", "]", "{", "}", "~"]
